@@ -16,7 +16,10 @@ def cases(draw, tier):
     nmax = 5 if tier == 'thorough' else 4
     nl = draw(gen.netlists(min_inputs=1, max_inputs=nmax, max_gates=16 if tier == 'thorough' else 12,
                            max_arity=4, styles=('plain', 'digits', 'mixed'), max_outputs=3, const_operands=(0, 0, 2)))
-    return {'nl': nl, 'route': draw(gen.routes(nl)), 'explicit_undefined': draw(st.booleans())}
+    return {'nl': nl, 'route': draw(gen.routes(nl)), 'explicit_undefined': draw(st.booleans()),
+            # how the assignment reaches the call: as built, or after copy.deepcopy / a pickle round trip (the Undefined
+            # marker then is another object of the same kind)
+            'transport': draw(st.sampled_from(['none', 'none', 'deepcopy', 'pickle']))}
 
 
 def check_partial(case):
@@ -33,8 +36,18 @@ def check_partial(case):
     results: dict[tuple, dict] = {}
     n_defined_with_undef_dep = 0
 
-    def support(lab, memo={}):
-        return None
+    tr = case.get('transport', 'none')
+
+    def sent(assign):
+        if tr == 'deepcopy':
+            import copy
+
+            return copy.deepcopy(assign)
+        if tr == 'pickle':
+            import pickle
+
+            return pickle.loads(pickle.dumps(assign))
+        return dict(assign)
 
     for p in itertools.product((False, True, None), repeat=n):
         assign = {}
@@ -47,9 +60,9 @@ def check_partial(case):
                 assign[nl['inputs'][i]] = v
                 cube &= pats[i] if v else (pats[i] ^ mask)
         total = None not in p
-        lazy = c.evaluate_circuit(dict(assign))
-        full = c.evaluate_full_circuit(dict(assign))
-        outs = c.evaluate_circuit_outputs(dict(assign))
+        lazy = c.evaluate_circuit(sent(assign))
+        full = c.evaluate_full_circuit(sent(assign))
+        outs = c.evaluate_circuit_outputs(sent(assign))
         for name, res in (('evaluate_circuit', lazy), ('evaluate_full_circuit', full)):
             for lab in labs:
                 if lab not in res:
@@ -108,6 +121,8 @@ def check_partial(case):
             break
     cls = gen.classify(nl)
     cls.add(f'n={n}')
+    if tr != 'none' and case['explicit_undefined']:
+        cls.add('undefined_marker_copied')
     return {'nt': nt, 'cls': cls, 'count': {'partial_assignments': 3 ** n},
             'sample': {'bench': build.bench_text(nl), 'explicit_undefined': case['explicit_undefined']}}
 
